@@ -97,13 +97,19 @@ func (m *MemoryTableSource) encodeRow(row map[string]any) []any {
 // []any tuple.
 func encodeKey(key any) string {
 	if vals, ok := key.([]any); ok {
-		parts := make([]string, len(vals))
-		for i, v := range vals {
-			parts[i] = encodeOne(v)
+		// Length-prefix every component so that a separator-like byte inside a value
+		// cannot shift the component boundaries (("a\x1fs:b","c") vs ("a","b\x1fs:c")).
+		var b strings.Builder
+		for _, v := range vals {
+			p := encodeOne(v)
+			b.WriteString(strconv.Itoa(len(p)))
+			b.WriteByte(':')
+			b.WriteString(p)
 		}
-		return strings.Join(parts, "\x1f")
+		return b.String()
 	}
-	return encodeOne(key)
+	// A scalar key is the one-component tuple.
+	return encodeKey([]any{key})
 }
 
 func encodeOne(v any) string {
